@@ -10,6 +10,15 @@ One check per call site / mechanism so that every defect is identified separatel
                 and without earlier reads on the object it was derived from
   simulator-*   fixed noise seed => identical data whatever the global RNG state
   mutable-defaults-* default argument objects are not modified by calls that rely on them
+  order-pairs-* generic order-independence harness: the read alphabet is found by INTROSPECTION (every public property /
+                cached_property of the chosen objects and of the helper objects they return, + listed query methods); every
+                ordered pair (A, B): `read A; read B` must report the B of a fresh identical graph (meshes, mappers +
+                regularization objects, structures + derive objects, Imaging + over samplers)
+  inversion-inputs-and-preloads-* byte fingerprint of EVERY ndarray reachable from everything handed to aa.Inversion, incl. a
+                Preloads object with every slot filled from an identical inversion, before construction vs after each read
+                of every public quantity; quantities read twice and a second inversion from the same inputs agree
+  inversion-wtilde-preloaded-assembly-buffers-* the same, restricted to one separately reported mechanism (w_tilde.py
+                assembles the curvature matrix / data vector inside the preloaded mapper-diag / data-vector arrays)
 
 Oracles: (a) fingerprints must be equal, (b) value of the same read on a fresh identical object (literally the property),
 (c) where the quantity has a closed form of the object's own contents (|V|, arg V, shapes) that closed form.
@@ -1101,3 +1110,856 @@ def simulator_deterministic(image, noise_seed, state_a, state_b, burn, add_noise
     if _fp(img) != f_img or _fp(psf) != f_psf:
         return "via_image_from modified the input image / psf"
     return None
+
+
+# =============================================================================================== generic harnesses
+#
+# (1) introspection: every public zero-argument quantity (property / cached_property whose name does not start with '_')
+#     of chosen objects of a freshly built object graph is an element of the read alphabet; objects returned by such a
+#     quantity that are not values themselves (derive_mask, geometry, over_sampler, grids, ...) are entered recursively.
+# (2) values are compared through `_val` (a strict snapshot: arrays, autoarray structures, scipy triangulations, plain
+#     records of arrays, nested lists / tuples / dicts); anything else is 'not comparable' and only used as an EARLIER read.
+# (3) `_order_history`: every read of a history must report what the same read reports on a fresh identical graph.
+
+class _NotComparable(Exception):
+    pass
+
+
+def _is_quantity_descriptor(a):
+    import functools
+    return isinstance(a, (property, functools.cached_property)) or type(a).__name__ in ("CachedProperty", "cached_property")
+
+
+def _public_quantities(obj):
+    import inspect
+    names = []
+    for k in dir(type(obj)):
+        if k.startswith("_"):
+            continue
+        try:
+            a = inspect.getattr_static(type(obj), k)
+        except AttributeError:
+            continue
+        if _is_quantity_descriptor(a):
+            names.append(k)
+    return sorted(names)
+
+
+def _val_array(a):
+    a = np.asarray(a)
+    if a.dtype == object:
+        return ["objarr"] + [_val(x, 1) for x in a.tolist()]
+    if np.iscomplexobj(a):
+        return [a.real.astype(float).copy(), a.imag.astype(float).copy()]
+    if a.dtype.kind not in "biuf":
+        return "arr:" + repr(a.tolist())
+    return a.astype(float).copy()
+
+
+def _val(v, depth=0):
+    """strict comparable snapshot of a reported value; raises _NotComparable for objects that are not values"""
+    if depth > 6:
+        raise _NotComparable("depth")
+    if v is None or isinstance(v, (bool, str, bytes, np.bool_)):
+        return repr(v)
+    if isinstance(v, (int, float, np.integer, np.floating)):
+        return np.array(float(v))
+    if isinstance(v, (complex, np.complexfloating)):
+        return np.array([v.real, v.imag], dtype=float)
+    if isinstance(v, dict):
+        return ["dict"] + [[k if isinstance(k, str) else (repr(k) if isinstance(k, (int, float, bool, tuple)) else type(k).__name__),
+                            _val(x, depth + 1)] for k, x in v.items()]
+    if isinstance(v, (list, tuple)):
+        return ["seq"] + [_val(x, depth + 1) for x in v]
+    mod = type(v).__module__ or ""
+    if mod.startswith("scipy.spatial"):
+        out = ["scipy:" + type(v).__name__]
+        for n in ("points", "simplices", "neighbors", "vertices", "ridge_points", "ridge_vertices", "regions", "point_region"):
+            if hasattr(v, n):
+                out.append(_val(getattr(v, n), depth + 1))
+        return out
+    if mod.startswith("scipy.sparse"):
+        return ["sparse", _val_array(v.toarray())]
+    if hasattr(v, "_array"):
+        out = ["aa:" + type(v).__name__, _val_array(v._array)]
+        m = v.__dict__.get("mask", None)
+        if m is not None and m is not v and hasattr(m, "_array"):
+            out += [_val_array(m._array), _val(tuple(getattr(m, "origin", ())), depth + 1), _val(tuple(getattr(m, "pixel_scales", ())), depth + 1)]
+        elif "origin" in v.__dict__ and "pixel_scales" in v.__dict__:
+            out += [_val(tuple(v.__dict__["origin"]), depth + 1), _val(tuple(v.__dict__["pixel_scales"]), depth + 1)]
+        return out
+    if isinstance(v, np.ndarray):
+        out = _val_array(v)
+        extra = getattr(v, "__dict__", None)
+        if extra:
+            out = ["nd:" + type(v).__name__, out] + [[k, _val(x, depth + 1)] for k, x in sorted(extra.items())]
+        return out
+    if mod.startswith("autoarray") and hasattr(v, "__dict__") and not _public_quantities(v):
+        return ["rec:" + type(v).__name__] + [[k, _val(x, depth + 1)] for k, x in sorted(v.__dict__.items())]     # plain record
+    raise _NotComparable(type(v).__name__)
+
+
+class _Silence:
+    """the library print()s a notice for every Voronoi interpolation call when its optional C extension is absent"""
+
+    def __enter__(self):
+        import contextlib
+        import io
+        self._cm = contextlib.redirect_stdout(io.StringIO())
+        self._cm.__enter__()
+
+    def __exit__(self, *a):
+        return self._cm.__exit__(*a)
+
+
+def _resolve(graph, path, extras):
+    if path in extras:
+        return extras[path](graph)
+    parts = path.split(".")
+    o = graph[parts[0]]
+    for p in parts[1:]:
+        o = getattr(o, p)
+    return o
+
+
+def _read_val(graph, path, extras):
+    try:
+        with _Silence():
+            v = _resolve(graph, path, extras)
+    except Exception as e:           # an exception is a reportable outcome of a read
+        return "EXC " + type(e).__name__
+    try:
+        return _val(v)
+    except _NotComparable:
+        return "NOTCOMPARABLE " + type(v).__name__
+    except RecursionError:
+        return "NOTCOMPARABLE (recursive) " + type(v).__name__
+
+
+def _is_scalar_val(s):
+    """snapshot of a scalar / tuple of scalars / string (no array content)"""
+    if isinstance(s, str):
+        return True
+    if isinstance(s, list):
+        return all(_is_scalar_val(x) for x in s[1:]) if s and isinstance(s[0], str) else all(_is_scalar_val(x) for x in s)
+    return getattr(s, "ndim", 1) == 0
+
+
+def _enumerate_quantities(graph, roots, extras, max_depth=2):
+    """[(path, kind)] for every public zero-argument quantity reachable from the root objects that does not raise on this
+    fresh graph; kind: 'array' (comparable, has array content), 'scalar' (comparable, scalars only), 'object'"""
+    out = []
+
+    def rec(obj, path, depth, seen):
+        for name in _public_quantities(obj):
+            p = path + "." + name
+            try:
+                with _Silence():
+                    v = getattr(obj, name)
+            except Exception:
+                continue                                  # raises on a fresh object: not part of the alphabet
+            try:
+                s = _val(v)
+                kind = "scalar" if _is_scalar_val(s) else "array"
+            except (_NotComparable, RecursionError):
+                kind = "object"
+            out.append((p, kind))
+            if kind == "object" and depth < max_depth and (type(v).__module__ or "").startswith("autoarray") and type(v) not in seen:
+                rec(v, p, depth + 1, seen | {type(v)})
+
+    for r in roots:
+        o = _resolve(graph, r, {})
+        rec(o, r, 1, {type(o)})
+    for name, f in extras.items():
+        if any(name == p for p, _ in out):
+            continue
+        try:
+            with _Silence():
+                s = _val(f(graph))
+            out.append((name, "scalar" if _is_scalar_val(s) else "array"))
+        except (_NotComparable, RecursionError):
+            out.append((name, "object"))
+        except Exception:
+            continue
+    return out
+
+
+_OREF = {}
+
+
+def _order_history(key, build, extras, history):
+    """each comparable read of the history must report what the same read reports on a FRESH identical graph (the
+    property: 'the same value whatever the order and number of earlier accesses'); reads that raise on a fresh graph or
+    are not comparable act as earlier reads only"""
+    if len(_OREF) > 48:
+        _OREF.clear()
+    refs = _OREF.setdefault(key, {})
+    for r in history:
+        if r not in refs:
+            refs[r] = _read_val(build(), r, extras)
+    g = build()
+    for i, r in enumerate(history):
+        got = _read_val(g, r, extras)
+        want = refs[r]
+        if isinstance(want, str) and (want.startswith("EXC ") or want.startswith("NOTCOMPARABLE")):
+            continue
+        if not _same(got, want):
+            return "after the reads %r, `%s` reports %s; on a fresh identical object it reports %s" % (
+                history[:i], r, _short(got), _short(want))
+    return None
+
+
+def _gen_order(fixture_cases, enumerate_case, rng, tier, n_pair_cases, quick_filter="ss", triple_cap=14):
+    """quick: all ordered pairs (A, B), B comparable, on the first `n_pair_cases` fixture cases -- quick_filter None: every
+    pair; "ss": pairs of two scalar-valued quantities only in the thorough tier; "sa": pairs whose FIRST read is scalar-valued
+    (and pairs object-valued read -> scalar-valued read) only in the thorough tier; thorough: every pair on every case + all triples (A1, A2, B) over (a capped number of) the
+    array-valued quantities + seeded random histories of length 3..5"""
+    cases = fixture_cases if tier == "thorough" else fixture_cases[:n_pair_cases]
+    alph = {}
+    for ci, fx in enumerate(cases):
+        qs = enumerate_case(fx)
+        alph[ci] = qs
+        names = [p for p, _ in qs]
+        kind = dict(qs)
+        comparable = [p for p in names if kind[p] != "object"]
+        heavy = [p for p in names if kind[p] != "scalar"]
+        qf = None if tier == "thorough" else quick_filter
+        for b in comparable:                               # array-valued observations first
+            if kind[b] == "array":
+                for a in (heavy if qf == "sa" else names):
+                    yield dict(fx, history=[a, b])
+        arrays_only = [p for p in names if kind[p] == "array"]
+        for b in comparable:
+            if kind[b] == "scalar":
+                for a in (arrays_only if qf == "sa" else heavy if qf == "ss" else names):
+                    yield dict(fx, history=[a, b])
+    if tier == "thorough":
+        for ci, fx in enumerate(cases[:2]):
+            kind = dict(alph[ci])
+            core = [p for p, k in alph[ci] if k == "array"]
+            rng.shuffle(core)
+            core = sorted(core[:triple_cap])
+            for h in itertools.product(core, repeat=3):
+                yield dict(fx, history=list(h))
+        for i in range(4000):
+            ci = i % len(cases)
+            names = [p for p, _ in alph[ci]]
+            yield dict(cases[ci], history=[rng.choice(names) for _ in range(rng.choice([3, 4, 5]))])
+
+
+# ---- meshes
+
+def _mesh_points(seed, n):
+    """n points: a jittered lattice stretched outwards (interior Voronoi cells of different finite size, unbounded cells
+    on the hull, no cocircular quadruples)"""
+    r = np.random.default_rng(seed)
+    k = int(np.ceil(np.sqrt(n)))
+    y, x = np.meshgrid(np.linspace(-1.5, 1.5, k), np.linspace(-1.0, 2.0, k), indexing="ij")
+    p = np.stack([y.ravel(), x.ravel()], axis=1)[:n]
+    p = p * (1.0 + 0.3 * np.abs(p))
+    return p + 0.08 * r.normal(size=p.shape)
+
+
+def _build_mesh_graph(aa, kind, seed, n):
+    pts = _mesh_points(seed, n)
+    if kind == "delaunay":
+        mesh = aa.Mesh2DDelaunay(values=pts)
+    elif kind == "voronoi":
+        mesh = aa.Mesh2DVoronoi(values=pts)
+    else:
+        mesh = aa.Mesh2DRectangular.overlay_grid(grid=aa.Grid2DIrregular(values=pts), shape_native=(3, 4))
+    return {"mesh": mesh, "values": np.random.default_rng(seed + 1).normal(size=mesh.pixels) + 3.0}
+
+
+_MESH_EXTRAS = {
+    "mesh.interpolated_array_from": lambda g: g["mesh"].interpolated_array_from(values=g["values"], shape_native=(4, 5)),
+    "mesh.interpolated_array_from(extent)": lambda g: g["mesh"].interpolated_array_from(
+        values=g["values"], shape_native=(3, 3), extent=(-1.0, 1.0, -1.0, 1.0)),
+    "copy(mesh)": lambda g: copy.copy(g["mesh"]),
+    "mesh*2": lambda g: g["mesh"] * 2.0,
+}
+
+
+def _mesh_cases():
+    return [{"kind": "delaunay", "seed": 11, "n": 12}, {"kind": "voronoi", "seed": 5, "n": 10},
+            {"kind": "rectangular", "seed": 7, "n": 12}, {"kind": "voronoi", "seed": 23, "n": 16},
+            {"kind": "delaunay", "seed": 2, "n": 9}, {"kind": "delaunay", "seed": 31, "n": 25}]
+
+
+def _gen_order_mesh(rng, tier):
+    import autoarray as aa
+    _quiet()
+    return _gen_order(_mesh_cases(), lambda fx: _enumerate_quantities(_build_mesh_graph(aa, **fx), ["mesh"], _MESH_EXTRAS, 2),
+                      rng, tier, n_pair_cases=3, quick_filter=None)
+
+
+@bounded("C11", "order-pairs-meshes", gen=_gen_order_mesh, nontrivial=lambda kind, seed, n, history: len(set(history)) > 1)
+def order_pairs_meshes(kind, seed, n, history):
+    """C11: 'reading any derived quantity ... never changes the value that any other quantity subsequently reports - on the
+    same object ...; every public quantity of a ... structure has the same value whatever the order and number of earlier
+    accesses' -- generic order-independence harness on source-plane meshes: the read alphabet is found by introspection
+    (every property / cached_property of Mesh2DDelaunay, Mesh2DVoronoi, Mesh2DRectangular and of the derive / geometry
+    objects they return that does not raise on a fresh mesh, + interpolated_array_from, copy, arithmetic); for every
+    ordered pair (A, B) `read A; read B` must report the B a fresh identical mesh reports; bound: all ordered pairs
+    (incl. A = B) on 3 meshes (12-point Delaunay, 10-point Voronoi, 3x4 rectangular; thorough: 6 meshes up to 25 points +
+    all triples over 14 array-valued quantities + 4000 seeded histories of length 3..5)."""
+    import autoarray as aa
+    _quiet()
+    return _order_history(("mesh", kind, seed, n), lambda: _build_mesh_graph(aa, kind, seed, n), _MESH_EXTRAS, history)
+
+
+# ---- mappers + regularization objects
+
+_REG_KINDS = ["constant", "constant_zeroth", "zeroth", "adaptive", "brightness_zeroth", "gaussian", "exponential", "matern",
+              "constant_split", "adaptive_split", "adaptive_split_zeroth"]
+
+
+def _make_reg(aa, kind):
+    r = aa.reg
+    return {"constant": lambda: r.Constant(coefficient=1.5), "constant_zeroth": lambda: r.ConstantZeroth(coefficient_neighbor=1.0, coefficient_zeroth=0.5),
+            "zeroth": lambda: r.Zeroth(coefficient=0.7), "adaptive": lambda: r.AdaptiveBrightness(inner_coefficient=0.5, outer_coefficient=2.0, signal_scale=1.5),
+            "brightness_zeroth": lambda: r.BrightnessZeroth(coefficient=0.8, signal_scale=1.2),
+            "gaussian": lambda: r.GaussianKernel(coefficient=1.0, scale=0.8), "exponential": lambda: r.ExponentialKernel(coefficient=1.0, scale=0.8),
+            "matern": lambda: r.MaternKernel(coefficient=1.0, scale=0.8, nu=1.5), "constant_split": lambda: r.ConstantSplit(coefficient=1.2),
+            "adaptive_split": lambda: r.AdaptiveBrightnessSplit(inner_coefficient=0.5, outer_coefficient=2.0, signal_scale=1.5),
+            "adaptive_split_zeroth": lambda: r.AdaptiveBrightnessSplitZeroth(zeroth_coefficient=0.3, zeroth_signal_scale=1.0, inner_coefficient=0.5,
+                                                                              outer_coefficient=2.0, signal_scale=1.5)}[kind]()
+
+
+def _build_mapper_graph(aa, mask, seed, mesh, reg, sub=2):
+    """mapper -> (mesh, data grid, over sampler, mask) + one regularization object of every scheme"""
+    r = np.random.default_rng(seed)
+    mk = aa.Mask2D(mask=mask.copy(), pixel_scales=(1.0, 1.0))
+    over = aa.OverSamplerUniform(mask=mk, sub_size=sub)
+    grid = over.over_sampled_grid
+    ext = np.asarray(grid)
+    y0, y1, x0, x1 = ext[:, 0].min(), ext[:, 0].max(), ext[:, 1].min(), ext[:, 1].max()
+    if mesh == "rectangular":
+        mesh_grid = aa.Mesh2DRectangular.overlay_grid(grid=grid, shape_native=(3, 3))
+        cls = aa.MapperRectangular
+    else:
+        u = np.array([[0.05, 0.1], [0.1, 0.9], [0.5, 0.45], [0.9, 0.15], [0.95, 0.9], [0.4, 0.05], [0.6, 0.95], [0.3, 0.6], [0.7, 0.4]])
+        pts = np.stack([y0 - 0.3 + u[:, 0] * (y1 - y0 + 0.6), x0 - 0.3 + u[:, 1] * (x1 - x0 + 0.6)], axis=1)
+        mesh_grid = aa.Mesh2DDelaunay(values=pts) if mesh == "delaunay" else aa.Mesh2DVoronoi(values=pts)
+        cls = aa.MapperDelaunay if mesh == "delaunay" else aa.MapperVoronoi
+    adapt = aa.Array2D(values=r.uniform(0.5, 3.0, size=int((~mask).sum())), mask=mk)
+    mg = aa.MapperGrids(mask=mk, source_plane_data_grid=grid, source_plane_mesh_grid=mesh_grid, image_plane_mesh_grid=None, adapt_data=adapt)
+    mapper = cls(mapper_grids=mg, over_sampler=over, border_relocator=None, regularization=_make_reg(aa, reg))
+    g = {"mask": mk, "over": over, "grid": grid, "mesh": mesh_grid, "mapper": mapper, "mg": mg, "adapt": adapt,
+         "values": r.normal(size=mesh_grid.pixels) + 3.0, "image": aa.Array2D(values=r.normal(size=int((~mask).sum())) + 2.0, mask=mk)}
+    for k in _REG_KINDS:
+        try:
+            g["reg_" + k] = _make_reg(aa, k)
+        except ImportError:             # scheme needs an optional dependency that is not installed: not in the alphabet
+            pass
+    return g
+
+
+def _mapper_extras():
+    X = {}
+    for k in _REG_KINDS:
+        X["reg_%s.regularization_matrix_from(mapper)" % k] = (lambda g, k=k: g["reg_" + k].regularization_matrix_from(linear_obj=g["mapper"]))
+        X["reg_%s.regularization_weights_from(mapper)" % k] = (lambda g, k=k: g["reg_" + k].regularization_weights_from(linear_obj=g["mapper"]))
+    X["mapper.pixel_signals_from"] = lambda g: g["mapper"].pixel_signals_from(signal_scale=1.3)
+    X["mapper.pix_indexes_for_slim_indexes"] = lambda g: g["mapper"].pix_indexes_for_slim_indexes(pix_indexes=[0, 4])
+    X["mapper.mapped_to_source_from"] = lambda g: g["mapper"].mapped_to_source_from(array=g["image"])
+    X["mapper.data_weight_total_for_pix_from"] = lambda g: g["mapper"].data_weight_total_for_pix_from()
+    X["mapper.extent_from"] = lambda g: g["mapper"].extent_from(values=g["values"])
+    X["mapper.interpolated_array_from"] = lambda g: g["mapper"].interpolated_array_from(values=g["values"], shape_native=(4, 4))
+    X["mesh(input).array"] = lambda g: np.asarray(g["mesh"]._array)
+    X["grid(input).array"] = lambda g: np.asarray(g["grid"]._array)
+    X["adapt_data(input)"] = lambda g: g["adapt"]
+    return X
+
+
+_MAPPER_EXTRAS = _mapper_extras()
+_MAPPER_MASK = np.ones((7, 7), dtype=bool)
+_MAPPER_MASK[2:5, 2:5] = False
+_MAPPER_MASK[2, 4] = True
+_MAPPER_MASK[1, 3] = False
+
+
+def _mapper_cases():
+    m2 = np.ones((6, 7), dtype=bool)
+    m2[1:5, 2:5] = False
+    m2[3, 3] = True
+    return [{"mask": _MAPPER_MASK, "seed": 4, "mesh": "delaunay", "reg": "constant_split"},
+            {"mask": _MAPPER_MASK, "seed": 9, "mesh": "rectangular", "reg": "adaptive"},
+            {"mask": m2, "seed": 1, "mesh": "voronoi", "reg": "adaptive_split"},
+            {"mask": m2, "seed": 3, "mesh": "delaunay", "reg": "gaussian"},
+            {"mask": m2, "seed": 6, "mesh": "rectangular", "reg": "constant_zeroth"}]
+
+
+def _mapper_alphabet(aa, fx):
+    """mapper quantities (introspected), the mesh's array-valued quantities (introspected) and the regularization queries"""
+    qs = _enumerate_quantities(_build_mapper_graph(aa, **fx), ["mapper", "mesh", "mg"], _MAPPER_EXTRAS, 1)
+    return [(p, k) for p, k in qs if not (p.startswith("mesh.") and k != "array")]
+
+
+def _gen_order_mapper(rng, tier):
+    import autoarray as aa
+    _quiet()
+    return _gen_order(_mapper_cases(), lambda fx: _mapper_alphabet(aa, fx), rng, tier, n_pair_cases=2, quick_filter="sa")
+
+
+@bounded("C11", "order-pairs-mappers-regularizations", gen=_gen_order_mapper,
+         nontrivial=lambda mask, seed, mesh, reg, history: len(set(history)) > 1)
+def order_pairs_mappers(mask, seed, mesh, reg, history):
+    """C11: 'reading any derived quantity or calling any query method never changes the value that any other quantity
+    subsequently reports - on the same object, on the objects it was built from ...' -- generic order-independence harness
+    on a mapper graph: alphabet = every public property / cached_property of MapperDelaunay / MapperRectangular /
+    MapperVoronoi and MapperGrids (introspected), the array-valued ones of the mesh the mapper was built from, the mapper's
+    query methods, and regularization_matrix_from(linear_obj=mapper) / regularization_weights_from of one object of each of
+    the 11 regularization schemes (Constant ... AdaptiveBrightnessSplitZeroth, kernels); for every ordered pair (A, B)
+    `read A; read B` must report the B of a fresh identical graph (pairs A = B: a query called twice); bound: all ordered
+    pairs (first read scalar-valued: thorough only) on a Delaunay + ConstantSplit and a rectangular + AdaptiveBrightness
+    mapper on 7x7 masks (thorough: 5 graphs incl. Voronoi, all triples over 14 array-valued reads, 4000 seeded histories)."""
+    import autoarray as aa
+    _quiet()
+    return _order_history(("mapper", mask.tobytes(), mask.shape, seed, mesh, reg),
+                          lambda: _build_mapper_graph(aa, mask, seed, mesh, reg), _MAPPER_EXTRAS, history)
+
+
+# ---- structures and their derive_* / geometry objects
+
+_SD_ROOTS = ["mask", "arr", "grid", "mask.derive_mask", "mask.derive_indexes", "mask.derive_grid", "mask.geometry", "grid.over_sampler"]
+_SD_ROOTS_THOROUGH = _SD_ROOTS + ["arr.derive_mask", "arr.derive_indexes", "grid.derive_grid", "grid.derive_mask", "grid.geometry", "arr.geometry"]
+
+
+def _build_struct_graph(aa, mask, seed, scales, origin):
+    r = np.random.default_rng(seed)
+    mk = aa.Mask2D(mask=mask.copy(), pixel_scales=scales, origin=origin)
+    m2 = mask.copy()
+    m2[:, : mask.shape[1] // 2] = True
+    return {"mask": mk, "arr": aa.Array2D(values=r.normal(size=mask.shape), mask=mk),
+            "grid": aa.Grid2D.from_mask(mk, over_sampling=aa.OverSamplingUniform(sub_size=2)),
+            "mask2": aa.Mask2D(mask=m2, pixel_scales=scales, origin=origin)}
+
+
+def _struct_cases():
+    m1 = np.ones((6, 7), dtype=bool)
+    m1[1:5, 1:6] = False
+    m1[2, 3] = True
+    m1[0, 2] = False
+    m2 = np.ones((7, 7), dtype=bool)
+    m2[1:6, 2:5] = False
+    m2[3, 1] = False
+    m2[3, 3] = True
+    m3 = np.zeros((4, 5), dtype=bool)
+    m3[0, 0] = True
+    return [{"mask": m1, "seed": 3, "scales": (1.0, 2.0), "origin": (0.5, -1.0)},
+            {"mask": m2, "seed": 8, "scales": (1.0, 1.0), "origin": (0.0, 0.0)},
+            {"mask": m3, "seed": 5, "scales": (0.5, 0.5), "origin": (1.0, 1.0)}]
+
+
+def _gen_order_struct(rng, tier):
+    import autoarray as aa
+    _quiet()
+    return _gen_order(_struct_cases(), lambda fx: _enumerate_quantities(
+        _build_struct_graph(aa, **fx), _SD_ROOTS_THOROUGH if tier == "thorough" else _SD_ROOTS, _STRUCT_READS, 1),
+                      rng, tier, n_pair_cases=1, quick_filter="sa")
+
+
+@bounded("C11", "order-pairs-structures-derive-objects", gen=_gen_order_struct,
+         nontrivial=lambda mask, seed, scales, origin, history: len(set(history)) > 1)
+def order_pairs_structures(mask, seed, scales, origin, history):
+    """C11: 'every public quantity of a ... mask or structure has the same value whatever the order and number of earlier
+    accesses' -- generic order-independence harness on one (Mask2D, Array2D, Grid2D) graph: alphabet = every public
+    property / cached_property (introspected) of the mask, array and grid, of the mask's derive_mask / derive_indexes /
+    derive_grid / geometry objects and of grid.over_sampler (thorough: also the array's and grid's derive / geometry objects), + the query methods of
+    history-structure-reads (resize, pad, trim, zoom, arithmetic, copy, apply_mask, blurring ...); for every ordered pair
+    (A, B) `read A; read B` must report the B of a fresh identical graph; bound: all ordered pairs whose first read is
+    array- or object-valued on one 6x7 mask with a hole, anisotropic scales and non-zero origin (thorough: every pair on 3
+    graphs incl. a 7x7 and an almost unmasked 4x5 mask, all triples over 14 array-valued reads, 4000 seeded histories)."""
+    import autoarray as aa
+    _quiet()
+    return _order_history(("struct2", mask.tobytes(), mask.shape, seed, scales, origin),
+                          lambda: _build_struct_graph(aa, mask, seed, scales, origin), _STRUCT_READS, history)
+
+
+# ---- Imaging datasets and over samplers
+
+_DO_ROOTS = ["raw", "ds", "ds.grids", "ds.grids.border_relocator", "ds.grids.uniform.over_sampler", "ds.convolver", "ds.w_tilde",
+             "over", "iter"]
+
+
+def _build_ds_graph(aa, mask, seed, covariance):
+    sc, o = (1.0, 2.0), (0.5, -1.0)
+    raw = _imaging(aa, seed, shape=mask.shape, scales=sc, origin=o, sub=2, covariance=covariance)
+    mk = aa.Mask2D(mask=mask.copy(), pixel_scales=sc, origin=o)
+    m2 = mask.copy()
+    m2[: mask.shape[0] // 2 + 1, :] = True
+    if m2.all():
+        m2 = mask.copy()
+    n = int((~mask).sum())
+    subs = [1 + (k % 3) for k in range(n)]
+    over = aa.OverSamplerUniform(mask=mk, sub_size=aa.Array2D(values=subs, mask=mk))
+    it = aa.OverSamplerIterate(mask=mk, fractional_accuracy=0.99, sub_steps=[2, 4])
+    vals = np.random.default_rng(seed + 7).normal(size=sum(s * s for s in subs))
+    return {"aa": aa, "raw": raw, "mask": mk, "ds": raw.apply_mask(mask=mk), "mask2": aa.Mask2D(mask=m2, pixel_scales=sc, origin=o),
+            "over": over, "iter": it, "sub_values": vals}
+
+
+def _bump(obj, grid, *args, **kwargs):
+    g = np.array(grid, dtype=float).reshape(-1, 2)
+    return np.exp(-((g[:, 0] - 0.4) ** 2 + (g[:, 1] + 0.8) ** 2) / 3.0) + 0.05
+
+
+def _ds_extras():
+    X = dict(_DS_READS)
+    X["over.binned_array_2d_from"] = lambda g: g["over"].binned_array_2d_from(array=g["sub_values"])
+    X["over.array_via_func_from"] = lambda g: g["over"].array_via_func_from(func=_bump, obj=g)
+    X["iter.array_via_func_from"] = lambda g: g["iter"].array_via_func_from(func=_bump, obj=None)
+    X["sub_values(input)"] = lambda g: g["sub_values"]
+    return X
+
+
+_DS_EXTRAS = _ds_extras()
+
+
+def _ds_cases(rng):
+    return [{"mask": _centre_mask(rng, 7, 2), "seed": 10 + i, "covariance": i == 1} for i in range(4)]
+
+
+def _gen_order_ds(rng, tier):
+    import autoarray as aa
+    _quiet()
+    return _gen_order(_ds_cases(rng), lambda fx: _enumerate_quantities(_build_ds_graph(aa, **fx), _DO_ROOTS, _DS_EXTRAS, 1),
+                      rng, tier, n_pair_cases=1, quick_filter="sa")
+
+
+@bounded("C11", "order-pairs-imaging-oversamplers", gen=_gen_order_ds,
+         nontrivial=lambda mask, seed, covariance, history: len(set(history)) > 1)
+def order_pairs_imaging(mask, seed, covariance, history):
+    """C11: 'every public quantity of a ... dataset ... has the same value whatever the order and number of earlier accesses'
+    -- generic order-independence harness on an Imaging graph: alphabet = every public property / cached_property
+    (introspected) of the unmasked and the masked Imaging, of its GridsDataset, border relocator, uniform-grid over sampler,
+    Convolver and WTildeImaging, of a stand-alone OverSamplerUniform with a per-pixel sub-size map 1..3 and of an
+    OverSamplerIterate, + the dataset derivations of history-dataset-reads and binned_array_2d_from / array_via_func_from;
+    for every ordered pair (A, B) `read A; read B` must report the B of a fresh identical graph; bound: all ordered pairs
+    whose first read is array- or object-valued on one seeded 7x7 dataset (thorough: every pair on 4 datasets, one with a
+    noise covariance matrix, all triples over 14 array-valued reads, 4000 seeded histories)."""
+    import autoarray as aa
+    _quiet()
+    return _order_history(("ds2", mask.tobytes(), seed, covariance), lambda: _build_ds_graph(aa, mask, seed, covariance), _DS_EXTRAS, history)
+
+
+# =============================================================================================== inversion inputs incl. Preloads
+
+def _walk(obj, path, arrays, scalars, seen, depth=0):
+    """every ndarray (by reference) and every scalar attribute reachable from `obj` through attributes / dicts / lists
+    (objects of the autoarray package and scipy triangulations are entered, up to 7 levels)"""
+    if depth > 7 or obj is None:
+        return
+    if isinstance(obj, (bool, int, float, str, complex, np.integer, np.floating, np.bool_)):
+        scalars[path] = repr(obj)
+        return
+    if id(obj) in seen:
+        return
+    if isinstance(obj, np.ndarray):
+        seen.add(id(obj))
+        arrays.append((path, obj))
+        extra = getattr(obj, "__dict__", None)
+        if extra:
+            for k, v in list(extra.items()):
+                _walk(v, path + "." + k, arrays, scalars, seen, depth + 1)
+        return
+    if isinstance(obj, dict):
+        seen.add(id(obj))
+        for i, (k, v) in enumerate(list(obj.items())):
+            _walk(v, "%s[%s]" % (path, k if isinstance(k, (str, int)) else "%s#%d" % (type(k).__name__, i)), arrays, scalars, seen, depth + 1)
+        return
+    if isinstance(obj, (list, tuple)):
+        seen.add(id(obj))
+        if len(obj) <= 64 or not all(isinstance(x, (int, float, bool)) for x in obj):
+            for i, v in enumerate(obj):
+                _walk(v, "%s[%d]" % (path, i), arrays, scalars, seen, depth + 1)
+        return
+    mod = type(obj).__module__ or ""
+    if mod.startswith("scipy.spatial"):
+        seen.add(id(obj))
+        for n in ("points", "simplices", "neighbors", "vertices", "ridge_points", "point_region"):
+            if hasattr(obj, n):
+                _walk(getattr(obj, n), path + "." + n, arrays, scalars, seen, depth + 1)
+        return
+    if mod.startswith("autoarray") and hasattr(obj, "__dict__"):
+        seen.add(id(obj))
+        for k, v in list(obj.__dict__.items()):
+            if k == "run_time_dict":
+                continue
+            _walk(v, path + "." + k, arrays, scalars, seen, depth + 1)
+
+
+def _hash_array(a):
+    if a.dtype == object:
+        return "obj:" + hashlib.sha1(repr(a.tolist()).encode()).hexdigest()
+    return "%s:%s:%s" % (a.dtype, a.shape, hashlib.sha1(np.ascontiguousarray(a).tobytes()).hexdigest())
+
+
+class _Fingerprint:
+    """byte-level fingerprint of every ndarray reachable from the named root objects (kept BY REFERENCE, so that an in-place
+    edit is seen even when the owner drops or replaces its attribute) + every scalar attribute by path"""
+
+    def __init__(self, roots):
+        self.roots = roots
+        self.arrays, self.scalars = [], {}
+        seen = set()
+        for name, o in roots.items():
+            _walk(o, name, self.arrays, self.scalars, seen)
+        self.hashes = [_hash_array(a) for _, a in self.arrays]
+
+    def changed(self, deep=False):
+        """paths whose bytes / scalar values differ from the snapshot (None if unchanged)"""
+        bad = [p for (p, a), h in zip(self.arrays, self.hashes) if _hash_array(a) != h]
+        if deep:
+            arrays, scalars = [], {}
+            seen = set()
+            for name, o in self.roots.items():
+                _walk(o, name, arrays, scalars, seen)
+            now = dict((p, _hash_array(a)) for p, a in arrays)
+            then = dict((p, h) for (p, _), h in zip(self.arrays, self.hashes))
+            bad += [p + " (rebound)" for p in then if p in now and now[p] != then[p] and p not in bad]
+            bad += [p + ": %s -> %s" % (self.scalars[p], scalars[p]) for p in self.scalars if p in scalars and scalars[p] != self.scalars[p]]
+        return bad or None
+
+
+_PRELOAD_SLOTS = ["curvature_matrix", "regularization_matrix", "operated_mapping_matrix", "w_tilde", "data_vector_mapper",
+                  "curvature_matrix_mapper_diag", "log_det_regularization_matrix_term", "mapper_operated_mapping_matrix_dict",
+                  "linear_func_operated_mapping_matrix_dict", "data_linear_func_matrix_dict", "relocated_grid"]
+
+_INV_CONFIGS = [(["rectangular"], ["constant"]), (["delaunay"], ["constant_split"]), (["rectangular", "delaunay"], ["constant", "constant"]),
+                (["rectangular"], [None]), (["delaunay", "rectangular"], ["adaptive", None]), (["delaunay"], ["gaussian"]),
+                (["rectangular", "rectangular"], ["adaptive", "constant_zeroth"]), (["delaunay"], [None])]
+
+
+def _inv_inputs(aa, mask, seed, meshes, regs, via_mesh_api, preloads=None, funcs=0):
+    """everything a caller hands to aa.Inversion: masked Imaging, mappers (each with its grids / mesh / regularization),
+    SettingsInversion; deterministic in its arguments"""
+    r = np.random.default_rng(seed)
+    shape = mask.shape
+    data = aa.Array2D.no_mask(values=r.normal(size=shape) + 5.0, pixel_scales=1.0)
+    noise = aa.Array2D.no_mask(values=r.uniform(1.0, 2.0, size=shape), pixel_scales=1.0)
+    psf = aa.Kernel2D.no_mask(values=_PSF, pixel_scales=1.0)
+    osd = aa.OverSamplingDataset(uniform=aa.OverSamplingUniform(sub_size=1), pixelization=aa.OverSamplingUniform(sub_size=2))
+    mk = aa.Mask2D(mask=mask.copy(), pixel_scales=1.0)
+    ds = aa.Imaging(data=data, noise_map=noise, psf=psf, over_sampling=osd).apply_mask(mask=mk)
+    over = ds.grids.pixelization.over_sampler
+    grid = over.over_sampled_grid
+    ext = np.asarray(grid)
+    y0, y1, x0, x1 = ext[:, 0].min(), ext[:, 0].max(), ext[:, 1].min(), ext[:, 1].max()
+    adapt = aa.Array2D(values=r.uniform(0.5, 3.0, size=int((~mask).sum())), mask=mk)
+    out = {"ds": ds, "mask": mk, "over": over, "grid": grid, "adapt": adapt, "mappers": [], "regs": [], "mesh_inputs": []}
+    for i, (mesh, reg) in enumerate(zip(meshes, regs)):
+        regularization = None if reg is None else _make_reg(aa, reg)
+        u = np.array([[0.05, 0.1], [0.1, 0.9], [0.5, 0.45], [0.9, 0.15], [0.95, 0.9], [0.4, 0.05], [0.6, 0.95], [0.3, 0.6]]) + 0.01 * i
+        pts = np.stack([y0 - 0.3 + u[:, 0] * (y1 - y0 + 0.6), x0 - 0.3 + u[:, 1] * (x1 - x0 + 0.6)], axis=1)
+        if via_mesh_api:
+            kw = dict(mask=mk, source_plane_data_grid=grid, border_relocator=ds.grids.border_relocator, adapt_data=adapt,
+                      preloads=preloads if preloads is not None else aa.Preloads())
+            if mesh == "rectangular":
+                mg = aa.mesh.Rectangular(shape=(3, 3 + i)).mapper_grids_from(**kw)
+            else:
+                mesh_in = aa.Grid2DIrregular(values=pts)
+                out["mesh_inputs"].append(mesh_in)
+                mg = aa.mesh.Delaunay().mapper_grids_from(source_plane_mesh_grid=mesh_in, **kw)
+        else:
+            if mesh == "rectangular":
+                mesh_grid = aa.Mesh2DRectangular.overlay_grid(grid=grid, shape_native=(3, 3 + i))
+            else:
+                mesh_grid = aa.Mesh2DDelaunay(values=pts)
+            out["mesh_inputs"].append(mesh_grid)
+            mg = aa.MapperGrids(mask=mk, source_plane_data_grid=grid, source_plane_mesh_grid=mesh_grid, image_plane_mesh_grid=None, adapt_data=adapt)
+        out["mappers"].append(aa.Mapper(mapper_grids=mg, over_sampler=over, regularization=regularization, border_relocator=None))
+        out["regs"].append(regularization)
+    out["linear_objs"] = list(out["mappers"])
+    if funcs:                                      # a linear function list (e.g. linear light profiles) in front of the mappers
+        fm = r.uniform(0.1, 1.0, size=(int((~mask).sum()), funcs))
+        out["func_matrix"] = fm
+        out["linear_objs"].insert(0, aa.m.MockLinearObjFuncList(parameters=funcs, grid=None, mapping_matrix=fm))
+    return out
+
+
+def _preload_values(aa, donor, donor_inv, slots, use_w_tilde):
+    """Preloads keyword arguments computed from an identical inversion (copies: the donor keeps nothing in common)"""
+    kw = {}
+
+    def put(slot, f):
+        if slot in slots:
+            try:
+                v = f()
+            except Exception:
+                return                      # the identical inversion cannot provide this slot (e.g. no regularization at all)
+            if v is not None:
+                kw[slot] = v
+    put("operated_mapping_matrix", lambda: np.array(donor_inv.operated_mapping_matrix, copy=True))
+    put("curvature_matrix", lambda: np.array(donor_inv.curvature_matrix, copy=True))
+    put("regularization_matrix", lambda: np.array(donor_inv.regularization_matrix, copy=True))
+    put("data_vector_mapper", lambda: np.array(donor_inv._data_vector_mapper, copy=True))
+    put("curvature_matrix_mapper_diag", lambda: np.array(donor_inv._curvature_matrix_mapper_diag, copy=True))
+    put("log_det_regularization_matrix_term", lambda: float(donor_inv.log_det_regularization_matrix_term))
+    put("mapper_operated_mapping_matrix_dict", lambda: dict(
+        (k, np.array(v, copy=True)) for k, v in donor_inv.mapper_operated_mapping_matrix_dict.items()))
+    put("linear_func_operated_mapping_matrix_dict", lambda: dict(
+        (k, np.array(v, copy=True)) for k, v in donor_inv.linear_func_operated_mapping_matrix_dict.items()))
+    put("data_linear_func_matrix_dict", lambda: dict((k, np.array(v, copy=True)) for k, v in donor_inv.data_linear_func_matrix_dict.items()))
+    put("relocated_grid", lambda: copy.deepcopy(donor["mappers"][0].source_plane_data_grid))
+    if "w_tilde" in slots and use_w_tilde:
+        kw["w_tilde"] = donor["ds"].w_tilde
+        kw["use_w_tilde"] = True
+    return kw
+
+
+def _assembly_buffer_slots(use_w_tilde, meshes, funcs):
+    """slots whose preloaded array the w-tilde inversion uses as the buffer in which it assembles the full curvature matrix
+    / data vector (separately recorded mechanism, see inversion-wtilde-preloaded-assembly-buffers-unmodified)"""
+    out = []
+    if use_w_tilde and (len(meshes) > 1 or funcs > 0):
+        out.append("curvature_matrix_mapper_diag")
+    if use_w_tilde and funcs > 0:
+        out.append("data_vector_mapper")
+    return out
+
+
+def _gen_inv_preloads(rng, tier):
+    n_single = len(_PRELOAD_SLOTS)
+    for i in range(gens.budget(tier, 120, 1500)):
+        meshes, regs = _INV_CONFIGS[(i // 2) % len(_INV_CONFIGS)]
+        j = (i // (2 * len(_INV_CONFIGS)))
+        use_w_tilde = bool(i & 1)
+        funcs = [0, 0, 0, 1, 0, 2, 0][i % 7]
+        if i % 3 == 0:
+            slots = list(_PRELOAD_SLOTS)
+        elif i % 3 == 1:
+            slots = [_PRELOAD_SLOTS[(i // 3) % n_single]]
+        else:
+            slots = [s for s in _PRELOAD_SLOTS if rng.random() < 0.5]
+        skip = _assembly_buffer_slots(use_w_tilde, meshes, funcs)
+        yield {"mask": _centre_mask(rng, 7, 2), "seed": rng.randrange(10 ** 6), "use_w_tilde": use_w_tilde, "positive_only": bool(rng.getrandbits(1)),
+               "meshes": meshes, "regs": regs, "slots": [s for s in slots if s not in skip], "warm": bool((i + j) % 2),
+               "via_mesh_api": bool(rng.random() < 0.4), "rotate": rng.randrange(40), "funcs": funcs}
+
+
+def _gen_inv_assembly(rng, tier):
+    for i in range(gens.budget(tier, 40, 400)):
+        meshes, regs = _INV_CONFIGS[i % len(_INV_CONFIGS)]
+        funcs = [0, 1, 2][i % 3]
+        if funcs == 0 and len(meshes) < 2:
+            meshes, regs = _INV_CONFIGS[2]
+        slots = _assembly_buffer_slots(True, meshes, funcs)
+        if i % 2:
+            slots = slots + [s for s in _PRELOAD_SLOTS if s not in slots and rng.random() < 0.3]
+        yield {"mask": _centre_mask(rng, 7, 2), "seed": rng.randrange(10 ** 6), "use_w_tilde": True, "positive_only": bool(rng.getrandbits(1)),
+               "meshes": meshes, "regs": regs, "slots": slots, "warm": bool(i % 2), "via_mesh_api": False, "rotate": rng.randrange(40),
+               "funcs": funcs}
+
+
+def _inv_purity_body(aa, mask, seed, use_w_tilde, positive_only, meshes, regs, slots, warm, via_mesh_api, rotate, funcs=0):
+    donor = _inv_inputs(aa, mask, seed, meshes, regs, via_mesh_api, funcs=funcs)
+    settings_kw = dict(use_w_tilde=use_w_tilde, use_positive_only_solver=positive_only)
+    donor_inv = aa.Inversion(dataset=donor["ds"], linear_obj_list=donor["linear_objs"], settings=aa.SettingsInversion(**settings_kw))
+    preloads = aa.Preloads(**_preload_values(aa, donor, donor_inv, slots, use_w_tilde))
+    fp_pre = _Fingerprint({"preloads": preloads})
+    g = _inv_inputs(aa, mask, seed, meshes, regs, via_mesh_api, preloads=preloads, funcs=funcs)
+    bad = fp_pre.changed(deep=True)
+    if bad:
+        return "building mapper grids with mesh.mapper_grids_from(preloads=p) modified p: %r" % bad[:6]
+    settings = aa.SettingsInversion(**settings_kw)
+    if warm:                                     # fill every cache of the inputs, so that cached arrays are fingerprinted too
+        for o in [g["ds"], g["ds"].grids] + g["mappers"] + [m.source_plane_mesh_grid for m in g["mappers"]]:
+            for n in _public_quantities(o):
+                try:
+                    getattr(o, n)
+                except Exception:
+                    pass
+    roots = {"dataset": g["ds"], "settings": settings, "preloads": preloads, "mask": g["mask"], "over_sampler": g["over"],
+             "source_plane_data_grid": g["grid"], "adapt_data": g["adapt"]}
+    for i, m in enumerate(g["mappers"]):
+        roots["mapper%d" % i] = m
+        roots["regularization%d" % i] = g["regs"][i]
+    for i, m in enumerate(g["mesh_inputs"]):
+        roots["mesh_input%d" % i] = m
+    if funcs:
+        roots["linear_func_list"] = g["linear_objs"][0]
+        roots["linear_func_mapping_matrix"] = g["func_matrix"]
+    fp = _Fingerprint(roots)
+    what = "slots %r, use_w_tilde=%s, meshes %r, regularizations %r%s" % (
+        sorted(preloads_set(preloads)), use_w_tilde, meshes, regs, ", + a linear function list with %d functions" % funcs if funcs else "")
+
+    def make():
+        return aa.Inversion(dataset=g["ds"], linear_obj_list=g["linear_objs"], settings=settings, preloads=preloads)
+    inv = make()
+    bad = fp.changed(deep=True)
+    if bad:
+        return "aa.Inversion(...) construction modified caller-owned inputs %r (%s)" % (bad[:6], what)
+    names = _public_quantities(inv)
+    names = names[rotate % len(names):] + names[:rotate % len(names)]
+    first = {}
+    for n in names:
+        first[n] = _read_val({"inv": inv}, "inv." + n, {})
+        bad = fp.changed()
+        if bad:
+            return "reading inversion.%s modified caller-owned inputs %r (%s; reads so far %r)" % (n, bad[:6], what, names[:names.index(n) + 1])
+    bad = fp.changed(deep=True)
+    if bad:
+        return "reading the inversion's quantities modified caller-owned inputs %r (%s)" % (bad[:6], what)
+    for n in names:
+        again = _read_val({"inv": inv}, "inv." + n, {})
+        if isinstance(first[n], str) and first[n].startswith("NOTCOMPARABLE"):
+            continue
+        if not _same(again, first[n]):
+            return "inversion.%s read a second time (after all other quantities) reports %s, the first read reported %s (%s)" % (
+                n, _short(again), _short(first[n]), what)
+    inv2 = make()
+    for n in names:
+        v2 = _read_val({"inv": inv2}, "inv." + n, {})
+        if isinstance(first[n], str) and first[n].startswith("NOTCOMPARABLE"):
+            continue
+        if not _same(v2, first[n]):
+            return "a second inversion built from the same dataset / mappers / settings / preloads reports %s = %s, the first one reported %s (%s)" % (
+                n, _short(v2), _short(first[n]), what)
+    bad = fp.changed(deep=True)
+    if bad:
+        return "the second inversion modified caller-owned inputs %r (%s)" % (bad[:6], what)
+    return None
+
+
+def preloads_set(p):
+    return [k for k, v in p.__dict__.items() if v is not None]
+
+
+@bounded("C11", "inversion-inputs-and-preloads-unmodified", gen=_gen_inv_preloads,
+         nontrivial=lambda slots, **k: len(slots) > 0)
+def inversion_inputs_and_preloads(mask, seed, use_w_tilde, positive_only, meshes, regs, slots, warm, via_mesh_api, rotate, funcs):
+    """C11: 'Constructing a ... mapper ... or inversion never modifies the arrays, masks or objects passed to it, and reading
+    any derived quantity ... never changes the value that any other quantity subsequently reports - on the same object, on
+    the objects it was built from ...; Repeating a computation with equal inputs gives identical results' -- EVERY ndarray
+    reachable (attributes / dicts / lists, 7 levels, kept by reference) and every scalar attribute of everything handed to
+    aa.Inversion -- the masked Imaging, each mapper with its grids / mesh / adapt data / regularization, SettingsInversion,
+    and a Preloads object whose slots (curvature_matrix, regularization_matrix, operated_mapping_matrix, w_tilde + use_w_tilde,
+    data_vector_mapper, curvature_matrix_mapper_diag, log_det_regularization_matrix_term, the three dict slots,
+    relocated_grid) were filled with copies computed from an identical inversion -- is fingerprinted before construction
+    (optionally after warming every cache of the dataset and mappers) and must be byte-identical after construction and
+    after EACH read of every public quantity of the inversion (introspected); the quantities read a second time, and those of
+    a second inversion built from the same inputs, must equal the first; mapping and w-tilde formalisms, 1-2 mappers
+    (rectangular / Delaunay, built directly or through mesh.mapper_grids_from(preloads=...)), with / without regularization,
+    optionally a linear function list (1-2 functions) in front of the mappers, positive-only solver on / off; the slots
+    curvature_matrix_mapper_diag / data_vector_mapper in the w-tilde formalism with >= 2 mappers or a function list are
+    the business of inversion-wtilde-preloaded-assembly-buffers-unmodified;
+    bound: 120 (1500) seeded 7x7 graphs x {all slots, each single slot, random subsets}."""
+    import autoarray as aa
+    _quiet()
+    return _inv_purity_body(aa, mask, seed, use_w_tilde, positive_only, meshes, regs, slots, warm, via_mesh_api, rotate, funcs)
+
+
+@bounded("C11", "inversion-wtilde-preloaded-assembly-buffers-unmodified", gen=_gen_inv_assembly, nontrivial=lambda slots, **k: len(slots) > 0)
+def inversion_wtilde_assembly_buffers(mask, seed, use_w_tilde, positive_only, meshes, regs, slots, warm, via_mesh_api, rotate, funcs):
+    """C11: 'Constructing a ... inversion never modifies the arrays ... passed to it, and reading any derived quantity ...'
+    -- the same fingerprint check as inversion-inputs-and-preloads-unmodified, restricted to one mechanism: the w-tilde
+    formalism with Preloads(curvature_matrix_mapper_diag=..., data_vector_mapper=...) and either >= 2 mappers or a linear
+    function list, where InversionImagingWTilde assembles the full curvature matrix / data vector (off-diagonal mapper
+    blocks, function rows / columns / entries) in the array returned by _curvature_matrix_mapper_diag /
+    _data_vector_mapper; call sites: inversion/imaging/w_tilde.py _curvature_matrix_multi_mapper,
+    _curvature_matrix_func_list_and_mapper, _data_vector_func_list_and_mapper; bound: 40 (400) seeded 7x7 graphs."""
+    import autoarray as aa
+    _quiet()
+    return _inv_purity_body(aa, mask, seed, use_w_tilde, positive_only, meshes, regs, slots, warm, via_mesh_api, rotate, funcs)
